@@ -87,7 +87,15 @@ T_end ==
   /\ \A w \in Workers : (w <= E.nw /\ wopen[w]) => {<<id.r, id.p>> : id \in wreq[w]} = {<<t[1], t[2]>> : t \in ToSet(E.wreq[w])}
   /\ UNCHANGED <<vars, seen>> /\ Consume
 
-T_silent == HubNext /\ UNCHANGED <<i, seen>>
+\* Hub steps are silent.  One structural fact of the run loop is added: the finishing pass comes after the
+\* events of the same turn, so a task is never timed out while an answer to it that a worker had already
+\* written is still unread.  (The driver records `ans` after the write returned and `send` before writing;
+\* it never schedules an answer within 150 ms of a deadline.)
+NoUnreadAnswerFor(r) == \A w \in Workers : \A k \in 1..Len(toHub[w]) : toHub[w][k].id.r # r
+T_silent ==
+  /\ HubNext
+  /\ \A r \in Reqs : (tasks[r].st = "live" /\ tasks'[r].st = "done" /\ ~HasFinished(tasks[r])) => NoUnreadAnswerFor(r)
+  /\ UNCHANGED <<i, seen>>
 
 TraceNext == T_reset \/ T_send \/ T_ans \/ T_close \/ T_wrecv \/ T_crecv \/ T_tick \/ T_hang \/ T_end \/ T_silent
 
